@@ -603,9 +603,25 @@ AbuseTable ==
      ctor_pointer_error_build |-> AE({"ctorError", "build"}),
      ctor_struct_error_add |-> AOK, ctor_struct_error_build |-> AOK, ctor_struct_error_resolve |-> AOK,
      \* disposable services that are values (not comparable / all equal): each constructed value closed exactly once
-     value_disposables_closed |-> AOK]
+     value_disposables_closed |-> AOK,
+     \* user code that calls back into the container (each call under a watchdog: not returning is a failure):
+     \* an instance whose Close closes its own scope - directly or from a goroutine it waits for - while that scope is
+     \* closed by itself / its parent / the provider; an instance that uses its closing scope; a scoped constructor
+     \* that fetches a scoped dependency from the injected scope or opens a child scope; a singleton whose Close
+     \* closes the provider
+     reentrant_close_via_scope |-> AOK, reentrant_close_via_parent |-> AOK, reentrant_close_via_provider |-> AOK,
+     reentrant_goclose_via_scope |-> AOK, reentrant_goclose_via_parent |-> AOK, reentrant_goclose_via_provider |-> AOK,
+     reentrant_resolve_while_closing |-> AOK, reentrant_create_while_closing |-> AOK,
+     reentrant_resolve_in_ctor |-> AOK, reentrant_child_scope_in_ctor |-> AOK,
+     reentrant_provider_close_from_singleton |-> AOK]
 \* calls of the battery that also speak for other properties
-AbuseTags == [value_disposables_closed |-> {"C10", "C12"}]
+ReClose == {"C12", "C13", "C10"}
+AbuseTags == [value_disposables_closed |-> {"C10", "C12"},
+              reentrant_close_via_scope |-> ReClose, reentrant_close_via_parent |-> ReClose, reentrant_close_via_provider |-> ReClose,
+              reentrant_goclose_via_scope |-> ReClose, reentrant_goclose_via_parent |-> ReClose, reentrant_goclose_via_provider |-> ReClose,
+              reentrant_resolve_while_closing |-> {"C13"}, reentrant_create_while_closing |-> {"C13"},
+              reentrant_resolve_in_ctor |-> {"C02", "C10"}, reentrant_child_scope_in_ctor |-> {"C02", "C10"},
+              reentrant_provider_close_from_singleton |-> ReClose]
 TagsOfAbuse(call) == {"C15"} \cup (IF call \in DOMAIN AbuseTags THEN AbuseTags[call] ELSE {})
 
 GuardsAbuse(e) ==
